@@ -123,7 +123,7 @@ def run(ctx):
     else:
         recs = records(ctx)
     return common.pipeline(
-        ctx, [('SpectrumOpsMC', 'SpectrumOpsMC_C09_%s.cfg' % ctx.tier)], 'Trace_SpectrumOps', recs,
+        ctx, ([('SpectrumOpsMC', 'SpectrumOpsMC_C09_quick.cfg')] if ctx.quick else [('SpectrumOpsMC', 'SpectrumOpsMC_C09_thoroughA.cfg'), ('SpectrumOpsMC', 'SpectrumOpsMC_C09_thoroughB.cfg')]), 'Trace_SpectrumOps', recs,
         nontrivial_of=nontrivial, mutator=mutate,
         rule='random 1-5-D spectra with even and odd total sample size, random masks, labels; fold, fold(mirror), fold(unfold(fold)), unfold, '
              'misid p in {0,1,1/2,random}; the operator closure table (4 operators x spectrum/scalar x plain/reflected/in-place x folded flags); '
